@@ -24,7 +24,7 @@ def dent(rng, n, f):
 
 
 def gen_base(rng):
-    size = 10 ** rng.uniform(-6, 0)
+    size = 10 ** rng.uniform(-6, 0) if rng.random() < 0.85 else 10 ** rng.uniform(-10, -6)      # also far below any mesh resolution: no absolute scale in the force terms
     kind, n, f = tissue.random_mesh(rng, kinds=("tetra", "octa", "icosa", "cube", "ico1", "ico2"), size=size, aniso=True,
                                     noise=rng.choice([0.0, 0.05, 0.12]), place=0.0)
     if rng.random() < 0.3:
@@ -183,16 +183,18 @@ def oracle(c, o, rng):
         for i in rng.sample(live, min(6, len(live))):
             d = [rng.gauss(0, 1) for _ in range(3)]; l = norm(d); d = [x / l for x in d]
             want = 0.0
-            # central difference with a step far below the shortest edge at the node (the area of a needle triangle is only
-            # locally linear over a fraction of its width)
-            emin = min(norm([nodes[j][m] - nodes[i][m] for m in range(3)]) for (a, b, cc, ty) in o["faces"] if ty >= 0 and i in (a, b, cc) for j in (a, b, cc) if j != i)
-            h = 1e-4 * min(emin, 1e-2 * size)
+            # analytic gradient of the triangle area with respect to one corner: dA/dp_i = 1/2 n x (p_k - p_j) with n the unit
+            # normal and (i, j, k) the cyclic order of the triangle (a difference quotient is useless on needle triangles, whose
+            # area is linear only over a fraction of their height)
             for (a, b, cc, ty) in o["faces"]:
                 if ty >= 0 and i in (a, b, cc):
-                    pp = [list(nodes[j]) for j in (a, b, cc)]; pm = [list(nodes[j]) for j in (a, b, cc)]
-                    k = (a, b, cc).index(i)
-                    pp[k] = [nodes[i][m] + h * d[m] for m in range(3)]; pm[k] = [nodes[i][m] - h * d[m] for m in range(3)]
-                    dA = (tri_area(*pp) - tri_area(*pm)) / (2 * h)
+                    tri = (a, b, cc); k0 = tri.index(i); j_, k_ = tri[(k0 + 1) % 3], tri[(k0 + 2) % 3]
+                    e1 = [nodes[j_][m] - nodes[i][m] for m in range(3)]; e2 = [nodes[k_][m] - nodes[i][m] for m in range(3)]
+                    nrm = cross(e1, e2); ln = norm(nrm)
+                    if ln == 0:
+                        continue
+                    g = cross([x / ln for x in nrm], [nodes[k_][m] - nodes[j_][m] for m in range(3)])
+                    dA = 0.5 * sum(g[m] * d[m] for m in range(3))
                     want += -(ct["fts"][ty]["tension"] + mef) * dA
             got = sum(F[i][k] * d[k] for k in range(3))
             if abs(want - got) > (2e-5 + 1e-9 * maxc / size) * (norm(F[i]) + abs(want)) + 1e-7 * sumabs / len(live):
@@ -256,6 +258,9 @@ def run(ck):
                 # pressure of apply_internal_forces is -K ln(V/V_t) with V from the absolute-coordinate determinant formula, whose
                 # relative error grows with the cube of the distance from the origin in cell sizes
                 floor_ = 1e-14 * (maxc / c["size"]) * natural + (1e-14 * ctt["K"] * (maxc / c["size"]) ** 3 * bo["A"] if c["term"] == 4 else 0.0)
+                # the membrane elasticity reads the reference area from the volume (isoperimetric ratio): same conditioning
+                if c["term"] in (1, 4) and bo["A"] > 0:
+                    floor_ += 1e-15 * (maxc / c["size"]) ** 3 * (ctt["ka"] / bo["A"]) * c["size"] * nl
                 if norm([rf[k] - fb[k] for k in range(3)]) > (1e-7 + 1e-12 * maxc / c["size"] + 3e-7 * cond_i) * sab + floor_:
                     fails.append((i, "internal_forces_equivariant(%s)" % TERMS[c["term"]])); break
     ck.cov["evaluations"] = len(cases)
